@@ -291,6 +291,7 @@ def run(tier, seed, drv):
         res.case(("ser", repr(msg)))
         if out != serial(msg):
             res.violate(V("serialise", f"{msg} -> {out}", site="ZeroMqPushIo._serialize"), {"msg": repr(msg)})
+    bad_parts(res)
     res.rule = ("seeded runs of the real ZeroMqPushIo + ZeroMqPushAdapter: 0-6 queued messages (some with mapping parts), 0-3 directly spawned sequences, "
                 "set-up before or after queueing, fake socket factory and drain with random latencies (loop yields and virtual microseconds); checked: "
                 "factory calls == 1, queued writes == queue order once each, each direct sequence in order, total writes; seeded runs in which sender tasks are CANCELLED at arbitrary suspension points (lock queue, socket factory, drain): at most one completed factory call, no non-cancelled sender blocked, order and at-most-once preserved; plus random action lists "
@@ -298,8 +299,52 @@ def run(tier, seed, drv):
     return res
 
 
+def bad_parts(res):
+    from tickit.adapters.io.zeromq_push_io import ZeroMqPushIo
+    # parts outside the fixed rule (numbers, None, lists, tuples ...) are REJECTED: a message that contains one is written
+    # to the socket neither in part nor as something else
+    for bad in (3, 2.5, None, [b"x"], (b"x",), True, object()):
+        for pos in (0, 1):
+            msg = [b"ok", "s"]
+            msg.insert(pos, bad)
+            writes = []
+
+            class Sock:
+                def write(self, parts):
+                    writes.append(parts)
+
+                async def drain(self):
+                    pass
+
+                def close(self):
+                    pass
+
+            async def factory(host, port):
+                return Sock()
+
+            async def go(loop, msg=msg):
+                io2 = ZeroMqPushIo(socket_factory=factory)
+                try:
+                    await io2.send_message(msg)
+                    return "accepted"
+                except TypeError:
+                    return "TypeError"
+                except Exception as e:   # noqa: BLE001
+                    return type(e).__name__
+            r, _ = run_virtual(go)
+            res.case(("ser-bad", repr(bad), pos))
+            res.count("unserialisable-part")
+            if writes or r != ("ok", "TypeError"):
+                res.violate(V("serialise", f"message {msg!r} with a part outside the rule: send_message -> {r}, written {writes!r}; expected TypeError and nothing written",
+                              site="ZeroMqPushIo._serialize"), {"bad": repr(bad)})
+
+
 def replay(payload, drv):
     c = payload["case"]
+    if "bad" in c:
+        r2 = Result()
+        bad_parts(r2)
+        return {"violations": [v["record"] for v in r2.violations]}
     if "cancel_seed" in c:
         vs, st = cancel_run(c["cancel_seed"])
         return {"stats": st, "violations": vs}
